@@ -12,5 +12,5 @@ if lines and lines[-1]=='': lines=lines[:-1]
 open(sys.argv[2]+'/coretraces.ndjson','w').write(json.dumps({"prog":c['ast'],"out":lines,"outcome":c['got_class']})+'\n')
 PY
 printf 'INIT TInit\nNEXT TNext\nCONSTANTS\nCoreCallLimit = 4096\nCoreFuel = 12000\nINVARIANTS ReportOut\nCHECK_DEADLOCK FALSE\n' > $D/Trace_Core.cfg
-(cd $D && timeout 300 java -Xss256m -cp /opt/veriftools/tla/tla2tools.jar:/opt/veriftools/tla/CommunityModules-deps.jar tlc2.TLC -metadir $D/md -workers 1 Trace_Core.tla 2>&1 | grep -A3 "MODELOUT\|Error" | head -40)
+(cd $D && timeout 300 java -Xss256m -cp /opt/veriftools/tla/tla2tools.jar:/opt/veriftools/tla/CommunityModules-deps.jar tlc2.TLC -metadir $D/md -workers 1 Trace_Core.tla 2>&1 | grep -A60 "MODELOUT\|Error" | head -90)
 rm -rf $D
